@@ -139,6 +139,8 @@ def run(ck: Check):
                              f"with exc={run_.exc}, {run_.tests} tests (bound {bound(n, m)}), final == core: {run_.final == want}",
                              {"session_sizes": list(sizes), "n": n, "core": list(core_idx), "tests": run_.tests,
                               "bound": bound(n, m)})
+    from scale import linked_testcase_core
+    linked_testcase_core(ck, bound)
     ex.diff()
     return ck.finish(level="proof", rule=RULE, assumptions=[
         "the test-count bound is a Coq theorem only in the form stated in Props/C10.v; see level note"])
